@@ -288,6 +288,14 @@ def run_proc(cmd, env=None, timeout=None, cwd=None):
 def crash_signature(stderr):
     """(kind, first oomd frame) from a sanitizer / abort report."""
     kind = 'crash'
+    if 'VP-WATCHDOG' in stderr:
+        # the harness's per-case watchdog fired: the code under test did not return
+        frame = '?'
+        for m in re.finditer(r'#\d+ 0x[0-9a-f]+ in ([^\n]+?) (/[^\s:]+):(\d+)', stderr):
+            if '/src/oomd/' in m.group(2):
+                frame = re.sub(r'\(.*', '', m.group(1)).strip() + '@' + os.path.basename(m.group(2))
+                break
+        return 'hang (no return within the watchdog time) in %s' % frame
     m = re.search(r'ERROR: AddressSanitizer: ([\w\-]+)', stderr)
     if m and m.group(1) == 'ABRT' and ('Assertion' in stderr or '__glibcxx_assert' in stderr):
         kind = 'assert'
@@ -411,7 +419,7 @@ class PropRunner:
         shutil.rmtree(self.tmp, ignore_errors=True)
 
     # -- one replay ---------------------------------------------------------
-    def replay(self, binpath, casefile, env=None, timeout=120):
+    def replay(self, binpath, casefile, env=None, timeout=150):
         rc, so, se, dt = run_proc([binpath, 'replay', casefile], env=env, timeout=timeout)
         why = ''
         m = re.search(r'REPLAY-FAIL (.*)', so)
@@ -457,7 +465,7 @@ class PropRunner:
             self.notes.append('candidate did not reproduce on replay (%s): %s' % (last, why))
             self.inconclusive += 1
             return
-        if kind == 'crash':
+        if kind == 'crash' and not (crash_sig or '').startswith('hang'):
             sig = crash_sig
 
             def still(c):
